@@ -1,7 +1,7 @@
 (* C18 round 3 - proofs about Train/LimitsModel.v *)
 From Coq Require Import NArith ZArith List Bool Lia.
 From ZV.Gen Require Import Gen_Train.
-From ZV.Train Require Import LimitsModel.
+From ZV.Train Require Import CoverParams CoverProofs LimitsModel.
 Import ListNotations.
 Local Open Scope N_scope.
 Ltac Zify.zify_post_hook ::= Z.div_mod_to_equations.
@@ -228,3 +228,31 @@ Lemma offsets_alloc_pinned_refuted :
   offsets_alloc false (U32M - 1) = 0 /\ offsets_written (U32M - 1) = 34359738368 /\ fill_last false (U32M - 1) = None /\
   offsets_alloc true (U32M - 1) = 34359738368.
 Proof. vm_compute. repeat split; reflexivity. Qed.
+
+(* ------------------------------------------------------------------ 4. the progress display of the optimisers *)
+(* kIterations, the divisor of the progress display "(iteration * 100) / kIterations" of both optimisers, is never 0
+   (and does not wrap), for every parameter vector that passes the entry checks *)
+Lemma opt_iterations_positive fuel d k steps g :
+  opt_grid true fuel d k steps = Some (Some g) -> 1 <= g_iterations g <= 3902.
+Proof.
+  unfold opt_grid.
+  set (kMinD := if d =? 0 then 6 else d). set (kMaxD := if d =? 0 then 8 else d).
+  set (kMinK := if k =? 0 then 50 else k). set (kMaxK := if k =? 0 then 2000 else k).
+  set (kSteps := if steps =? 0 then 40 else steps).
+  set (kStepSize := N.max ((kMaxK - kMinK) / kSteps) 1).
+  assert (HD : (kMaxD - kMinD) / 2 <= 1).
+  { unfold kMinD, kMaxD. destruct (N.eqb_spec d 0); [vm_compute; discriminate|]. replace (d - d) with 0 by lia. vm_compute; discriminate. }
+  assert (HS : 1 <= kStepSize) by (unfold kStepSize; lia).
+  assert (HK : (kMaxK - kMinK) / kStepSize <= 1950).
+  { apply N.div_le_upper_bound; [lia|]. unfold kMinK, kMaxK. destruct (N.eqb_spec k 0).
+    - change (2000 - 50) with 1950. clearbody kStepSize. nia.
+    - replace (k - k) with 0 by lia. lia. }
+  destruct ((kMinK <? kMaxD) || (kMaxK <? kMinK)); [discriminate|].
+  destruct (u32_loop true fuel kMinD kMinD kMaxD 2); [|discriminate].
+  destruct (u32_loop true fuel kMinK kMinK kMaxK kStepSize); [|discriminate].
+  intros H. injection H as <-. change (1 <= w32 ((1 + (kMaxD - kMinD) / 2) * (1 + (kMaxK - kMinK) / kStepSize)) <= 3902). unfold w32. rewrite U32MOD_val.
+  remember ((kMaxD - kMinD) / 2) as a. remember ((kMaxK - kMinK) / kStepSize) as b. clear - HD HK.
+  assert (Hp : (1 + a) * (1 + b) <= 2 * 1951) by (apply N.mul_le_mono; lia).
+  assert (Hq : 1 * 1 <= (1 + a) * (1 + b)) by (apply N.mul_le_mono; lia).
+  rewrite N.mod_small by lia. lia.
+Qed.
